@@ -13,8 +13,12 @@ WIDE = {",": (" ", " "), ":": (" ", " "), "=": (" ", " "), ";": (" ", " ")}
 NEWLINES = {",": ("\n", "\n"), ":": ("\n", "\n"), "=": ("\n", "\n"), ";": ("\n", "\n  ")}
 
 
+TABS = {",": ("\t", "\t"), ":": ("", "\t"), "=": ("\t", "\t"), ";": ("", "\t")}
+CRLF = {",": ("", "\r\n"), ":": ("", " "), "=": (" ", " "), ";": ("", "\r\n")}
+
+
 def all_styles():
-    styles = [("compact", COMPACT), ("spaced", SPACED), ("wide", WIDE), ("newlines", NEWLINES)]
+    styles = [("compact", COMPACT), ("spaced", SPACED), ("wide", WIDE), ("newlines", NEWLINES), ("tabs", TABS), ("crlf", CRLF)]
     for sep in (",", ":", "=", ";"):
         for b in ("", " ", "\n"):
             for a in ("", " ", "\n"):
@@ -92,7 +96,7 @@ class _P:
         self.i = 0
 
     def ws(self):
-        while self.i < len(self.s) and self.s[self.i] in " \n\t":
+        while self.i < len(self.s) and self.s[self.i] in " \n\t\r":
             self.i += 1
 
     def peek(self):
